@@ -307,8 +307,8 @@ func (f *frame) instrMods(in ssa.Instruction, mods *modSet, depth int) {
 				mods.star = true
 			}
 			for c, me := range tmp.m {
-				fresh := !me.all && len(me.refs) > 0
-				for _, rv := range me.refs {
+				fresh := !me.all && len(me.refs)+len(me.subRoots) > 0
+				for _, rv := range append(append([]ssa.Value{}, me.refs...), me.subRoots...) {
 					switch rv.(type) {
 					case *ssa.Alloc, *ssa.MakeSlice, *ssa.MakeMap:
 					default:
@@ -402,7 +402,15 @@ func (f *frame) loopHeader(b *ssa.BasicBlock, li *loopInfo, st *bstate, ins []in
 		for _, c := range mods.keys() {
 			me := mods.m[c]
 			vc.comps[c] = me.sort
-			pointwise := !me.all && len(me.refs) > 0
+			pointwise := !me.all && len(me.refs)+len(me.subRoots) > 0
+			// nested writes: fine when the root object is allocated inside the
+			// loop (fresh every iteration), otherwise the component is havocked
+			for _, r := range me.subRoots {
+				in, ok := r.(*ssa.Alloc)
+				if !ok || !li.body[in.Block()] {
+					pointwise = false
+				}
+			}
 			if os.Getenv("GVC_DEBUG") != "" {
 				fmt.Fprintf(os.Stderr, "loop mods %s all=%v refs=%v\n", c, me.all, me.refs)
 			}
